@@ -116,6 +116,11 @@ macro_rules! get_regex {
   ( $self:ident, $this:expr, $hooks:ident ) => {{
     let instance = $this.to_obj().to_instance();
 
+    // the pattern is an ordinary field, a script can put anything there
+    if !instance[0].is_obj_kind(ObjectKind::String) {
+      return $self.call_error($hooks, "RegExp pattern must be a string.");
+    }
+
     match Regex::new(&*instance[0].to_obj().to_str()) {
       Ok(regexp) => regexp,
       Err(err) => return $self.call_error($hooks, err.to_string()),
